@@ -496,8 +496,28 @@ def Format.utf8 : Format where
   charIndices := utf8Chars
   encodeChar := encodeUtf8
 
-/-- the `while i < buf.len()` loop of `WTF8::validate`, on the remaining suffix `buf.drop i` -/
+/-- the `while i < buf.len()` loop of `WTF8::validate`, on the remaining suffix `buf.drop i`
+(with the `codept.rewind != 0` guard of commit 218f57f: a character that does not start at `i` means
+`i` sits on a stray continuation byte) -/
 def wtf8ValidateFuel : Nat → List UInt8 → Nat → Bool → Bool
+  | 0, buf, i, _ => decide (i ≥ buf.length)
+  | f + 1, buf, i, prevLead =>
+    if i ≥ buf.length then true
+    else match classify buf i with
+      | none => false
+      | some cp =>
+        if cp.start ≠ i then false
+        else if !wtf8Meaningful cp.meaning then false
+        else match cp.meaning with
+          | .trail _ => if prevLead then false else wtf8ValidateFuel f buf (i + cp.len) false
+          | .lead _ => wtf8ValidateFuel f buf (i + cp.len) true
+          | _ => wtf8ValidateFuel f buf (i + cp.len) false
+
+def wtf8Validate (buf : List UInt8) : Bool := wtf8ValidateFuel buf.length buf 0 false
+
+/-- `WTF8::validate` as it was on the pinned tree (before commit 218f57f), without the `rewind`
+guard; kept only for the witness theorem of the defect found by C11 -/
+def wtf8ValidateFuelPinned : Nat → List UInt8 → Nat → Bool → Bool
   | 0, buf, i, _ => decide (i ≥ buf.length)
   | f + 1, buf, i, prevLead =>
     if i ≥ buf.length then true
@@ -506,11 +526,11 @@ def wtf8ValidateFuel : Nat → List UInt8 → Nat → Bool → Bool
       | some cp =>
         if !wtf8Meaningful cp.meaning then false
         else match cp.meaning with
-          | .trail _ => if prevLead then false else wtf8ValidateFuel f buf (i + cp.len) false
-          | .lead _ => wtf8ValidateFuel f buf (i + cp.len) true
-          | _ => wtf8ValidateFuel f buf (i + cp.len) false
+          | .trail _ => if prevLead then false else wtf8ValidateFuelPinned f buf (i + cp.len) false
+          | .lead _ => wtf8ValidateFuelPinned f buf (i + cp.len) true
+          | _ => wtf8ValidateFuelPinned f buf (i + cp.len) false
 
-def wtf8Validate (buf : List UInt8) : Bool := wtf8ValidateFuel buf.length buf 0 false
+def wtf8ValidatePinned (buf : List UInt8) : Bool := wtf8ValidateFuelPinned buf.length buf 0 false
 
 def wtf8ValidatePrefix (buf : List UInt8) : Bool :=
   if buf.isEmpty then true
